@@ -501,6 +501,10 @@ prop("C20",
 PROPS["C03"]["quick"].append({"engine": "Z", "prop": "C03"})
 PROPS["C03"]["thorough"].append({"engine": "Z", "prop": "C03", "zoo_tier": "thorough"})
 META["C03"]["engine"] = "S+L+Z"
+PROPS["C18"]["quick"].append({"engine": "Z", "prop": "C18"})
+PROPS["C18"]["thorough"].append({"engine": "Z", "prop": "C18", "zoo_tier": "thorough"})
+META["C18"]["engine"] = "S+Z"
+PROPS["C18"]["assumptions"].append("engine Z: the configured byte format must reach the printed cells by every route (default, --bytes-format, DIVAN_BYTES_FORMAT, builder before / after the arguments are read, command line over builder): the prefix family of every byte cell is observed, nothing more")
 for _p in ("C04", "C19"):
     PROPS[_p]["quick"].append({"engine": "Z", "prop": _p})
     PROPS[_p]["thorough"].append({"engine": "Z", "prop": _p, "zoo_tier": "thorough"})
